@@ -4,7 +4,7 @@
 
 use crate::bridge::*;
 use crate::core::{Ctx, Scenario, Step};
-use crate::cv::{hex, Body, Item};
+use crate::cv::{hex, Body, Item, CV};
 use crate::hist::{self, StepResult, World};
 use crate::model::*;
 use crate::rng::SimRng;
@@ -207,12 +207,45 @@ fn fault_step(w: &mut World, ctx: &mut Ctx, st: &Step) -> StepResult {
             let key = (st.arg(1) % 4) as u32;
             let whole = st.arg(2) % 2 == 1;
             let k = sym_key(key);
+            // now and then the document is first turned into a node whose subject is itself a node: the whole is
+            // compressed, an assertion is added to the compressed element, and the subject is uncompressed again
+            let (orig, om) = if st.arg(3) % 3 == 2 && om.is_node() && !om.has_obscured() && w.docs[d].independent {
+                match guarded(|| orig.compress().and_then(|c| c.add_assertion("kept with", 1).uncompress_subject())) {
+                    Ok(Ok(e)) => {
+                        ctx.probe("node-whose-subject-is-a-node");
+                        (e, M::node(om.clone(), vec![M::assertion(M::leaf(CV::text("kept with")), M::leaf(CV::U(1)))]))
+                    }
+                    _ => (orig, om),
+                }
+            } else {
+                (orig, om)
+            };
             if !whole && om.subject().is_obscured() {
-                return StepResult::Skipped;
+                // an elided or compressed subject is an element like any other: it is encrypted as it stands and comes
+                // back as it was; only a subject that is already encrypted is refused
+                match om.subject().obsc() {
+                    Obsc::Elided | Obsc::Compressed if orig.subject().is_elided() || orig.subject().is_compressed() => ctx.probe("encrypt-subject-that-is-elided-or-compressed"),
+                    Obsc::Encrypted(_) if orig.subject().is_encrypted() => {
+                        ctx.checked();
+                        match guarded(|| orig.encrypt_subject(&k)) {
+                            Ok(Ok(_)) => ctx.violate("C08.double-encrypt", "a subject that is already encrypted was encrypted a second time".to_string()),
+                            Ok(Err(_)) => ctx.probe("double-encrypt-refused"),
+                            Err(p) => ctx.violate_sig("C16.no-panic", format!("second encrypt panicked: {}", p), p),
+                        }
+                        return StepResult::Refused;
+                    }
+                    _ => return StepResult::Skipped,
+                }
             }
             let enc = match guarded(|| if whole { Ok(orig.encrypt(&k)) } else { orig.encrypt_subject(&k) }) {
                 Ok(Ok(e)) => e,
                 Ok(Err(_)) => {
+                    if !whole && om.subject().is_obscured() {
+                        // the library refuses some obscured subjects (a bare elided envelope: "already elided") and
+                        // accepts others; the property only speaks about what an accepted encryption must satisfy
+                        ctx.probe("obscured-subject-refused");
+                        return StepResult::Refused;
+                    }
                     ctx.checked();
                     ctx.violate("C08.encrypt-refused", "encrypt_subject refused a clear subject".to_string());
                     return StepResult::Refused;
